@@ -179,3 +179,7 @@ Proof.
     + destruct (ustr_eqb k k') eqn:E; auto. apply ustr_eqb_eq in E. subst. rewrite Ep. auto.
     + rewrite IH. destruct (ustr_eqb k k') eqn:E; auto. apply ustr_eqb_eq in E. subst. rewrite Ep. auto.
 Qed.
+
+(* a cleaned timestamp carries a non-empty text (used where truthiness of a value is compared with
+   truthiness of its serialization) *)
+Definition nice (x : pval) : Prop := match x with PTime _ t => t <> [] | _ => True end.
